@@ -96,6 +96,9 @@ def known_family(case, m):
     if os.path.basename(case.get("corpus", "")) == \
             "kill_with_merge_on_parent.puml":
         return "PV-F-D-kill-with-merge-on-parent"
+    if os.path.basename(case.get("corpus", "")) == \
+            "loop_with_2_breaks_one_leads_to_other_equiv.puml":
+        return "PV-F-G-corpus-break-target-shared-with-loop-exit"
     f = m.features
     if "break_multi_loop_last" in f:
         return "PV-F-B-trailing-loop-multi-event-break"
